@@ -27,7 +27,10 @@ MANIFEST = dict(
          "path its arguments leave open and ends with the passed generator (or RandomState(seed)) stored; element types (abstract domain "
          "{holds a double, does not, the caller's own type} resp. integer widths): no conversion, typed output array or in-place update between "
          "M.r + mean and the returned samples narrows the floating values (the constructor's stored copies included), and a conversion of the drawn "
-         "indices is to an integer type that holds imax-1 for every imax its path admits.",
+         "indices is to an integer type that holds imax-1 for every imax its path admits; the routine that interpolates under the cumulative "
+         "sampler returns the line through the two table entries bracketing the deviate, segment index max(searchsorted-1, 0) for every deviate "
+         "up to the last cumulative value (index functions of the search result and the table size decided symbolically per region); effect "
+         "analysis of the function samplers: nothing they write outlives the call and reaches the result other than keyed on the arguments' values.",
     note="Not decided: distributional correctness, containment numerically. Trusted: numpy Generator/RandomState APIs, scipy "
          "cumulative_trapezoid, sympy normaliser.",
     technique="static analysis: abstract interpretation over a symbolic term domain (draws as uninterpreted deviates), who-may-call RNG discipline, AST provenance rules",
@@ -42,7 +45,8 @@ GLOBAL_RNG_OK = {"RandomState", "default_rng", "Generator", "SeedSequence"}
 # resolved calls); every other rule of this check is a template rule (vcheck.core.Check.obt)
 SEMANTIC = ('R19.cap', 'R19.chol', 'R19.gen', 'R19.ind', 'R19.box::randsphere::ra-inside-box', 'R19.box::randsphere::dec-inside-box',
             'R19.box::randsphere::generator-forwarded', 'R19.box::randsphere::xyz-system-converts-same-points',
-            'R19.box::randsphere::default-ranges-are-full-sphere', 'R19.box::randsphere::draws-from-passed-generator')
+            'R19.box::randsphere::default-ranges-are-full-sphere', 'R19.box::randsphere::draws-from-passed-generator',
+            'R19.box::esutil.coords.randsphere::nothing-carried-between-calls')
 
 
 def run(chk):
@@ -56,6 +60,7 @@ def run(chk):
     rng_discipline(chk, repo)
     generator(chk, repo)
     cholesky(chk, repo)
+    no_carried_state(chk, repo)
     indices(chk, repo)
 
 
@@ -2698,6 +2703,11 @@ def generator(chk, repo):
             chk.ob(R, keys[1], ip[0].args == (sp.Symbol("self.xvals"), sp.Symbol("self.pcum"), draws[0]), w,
                    "x(u) = interplin(values=xvals, abscissae=pcum, at=u) (found %s)" % str(ip[0])[:160])
             chk.ob(R, keys[2], acc == ip[0], w, "the interpolated values are returned unmodified")
+    callee = None
+    if isinstance(acc, sp.Basic):
+        named = sorted({fname(x) for x in sp.preorder_traversal(acc) if fname(x).rsplit(".", 1)[-1] == "interplin" or repo.has(fname(x))})
+        callee = named[0] if len(named) == 1 else None
+    inverse_interpolant(chk, repo, callee)
     # Generator.sample dispatch and count
     fi = repo.func(RA + "Generator.sample")
     got, _, _ = mini_run(repo, fi.qualname, {"numrand": numrand}, {"self.method": "accum"})
@@ -2708,6 +2718,117 @@ def generator(chk, repo):
     fi = repo.func(RA + "Generator.__init__")
     ok, found = _stored_generator(repo, fi)
     chk.ob(R, fi.qualname + "::keeps-passed-generator", ok, fi.where(), "self.rng is the passed generator, or a seeded RandomState when none is given (%s)" % found)
+
+
+# ---- the inverse interpolation itself ----------------------------------------------------------------------------------------
+def _segment_role(e, x, u, index_values):
+    """the role of an index expression e (a function of s = searchsorted(x, u) and n = size(x)) for the query points the sampler
+    can produce, u <= x[n-1] (the table ends at 1 and the deviates are in [0,1]), i.e. s in 0..n-1, n >= 2:
+    ('k', None) / ('k+1', None) when e is the segment start k = max(s - 1, 0) / its end for all of them, ('other', text) when it
+    is positively another function of (s, n), (None, None) when it is not read as such a function.
+    Decided symbolically on the two regions s = 0 (u at or below the first table entry) and 1 <= s <= n-1 (inside the table),
+    each parametrised by non-negative integers so that the min / max / clip of the clamp resolve; where the symbolic form does
+    not resolve, the complete table of the integer function over small (n, s) (the one checks.C18 uses) decides."""
+    SS, SIZE_, CL = sp.Function("SEARCHSORTED"), sp.Function("SIZE"), sp.Function("CLIP")
+    s_, n_ = sp.Symbol("s_", integer=True), sp.Symbol("n_", integer=True)
+    a, b = sp.Symbol("a_", integer=True, nonnegative=True), sp.Symbol("b_", integer=True, nonnegative=True)
+    f = e.xreplace({SS(x, u): s_, SIZE_(x): n_})
+    f = f.replace(CL, lambda v_, lo, hi: sp.Min(sp.Max(v_, lo), hi))
+    if f.free_symbols - {s_, n_} or f.atoms(sp.core.function.AppliedUndef) or s_ not in f.free_symbols:
+        return None, None
+    regions = (("deviates at or below the first tabulated cumulative value", {s_: sp.Integer(0), n_: 2 + b}, sp.Integer(0)),
+               ("deviates inside the table", {s_: 1 + a, n_: 2 + a + b}, a))
+    proved = {"k": True, "k+1": True}
+    for _, sub, k in regions:
+        try:
+            d = sp.simplify(f.subs(sub, simultaneous=True) - k)
+        except Exception:
+            d = None
+        if d != 0:
+            proved["k"] = False
+        if d != 1:
+            proved["k+1"] = False
+    for role in ("k", "k+1"):
+        if proved[role]:
+            return role, None
+    vals = index_values(e, x, u)
+    if vals is None:
+        return None, None
+    off = {"k": 0, "k+1": 1}
+    miss = {r: sorted({("below" if sv == 0 else "inside") for (n, sv), val in vals.items() if sv <= n - 1 and val != max(sv - 1, 0) + o}) for r, o in off.items()}
+    for role in ("k", "k+1"):
+        if not miss[role]:
+            return role, None
+    role = "k" if len(miss["k"]) <= len(miss["k+1"]) else "k+1"
+    txt = {"below": "deviates below the first tabulated cumulative value", "inside": "deviates inside the table"}
+    n, sv = [key for key in sorted(vals) if key[1] <= key[0] - 1 and vals[key] != max(key[1] - 1, 0) + off[role]][0]
+    return "other", "`%s` is not the segment %s max(searchsorted - 1, 0)%s for %s (for a table of %d entries and a deviate with %d entries below it, it is %d%s)" \
+        % (str(e)[:80], "start" if role == "k" else "end", "" if role == "k" else " + 1", " and ".join(txt[z] for z in miss[role]), n, sv, vals[(n, sv)],
+           ": a negative index counts from the END of the table" if vals[(n, sv)] < 0 else "")
+
+
+def inverse_interpolant(chk, repo, callee):
+    """the map u -> x(u) under _genrand_accum: for every deviate u <= (last cumulative value) the routine that interpolates returns
+    the point at u of the straight line through the table points k and k+1 that bracket u, k = max(searchsorted(abscissae, u) - 1, 0)
+    (so below the first tabulated value it is the line through the FIRST TWO entries, continued).  This is what makes grid points come
+    back exactly at their cumulative values, the map non-decreasing, and the result stay inside the grid from the first tabulated value
+    on.  Decided on the term of the routine (search, size, element reads, clamp primitives), segment indices classified for all table
+    sizes; anything else in the term: no verdict."""
+    R, key = "R19.gen", "inverse-interpolation::line-through-bracketing-entries"
+    if callee is None or not repo.has(callee):
+        chk.ob(R, key, None, repo.func(RA + "Generator._genrand_accum").where(), "the interpolation routine under _genrand_accum is not a package function that can be read (%s)" % callee)
+        return
+    fi = repo.func(callee)
+    chk.analysed_unit(fi.qualname)
+    try:
+        from checks import C18 as c18
+        tools = (c18._SymEval, c18._search_in_part, c18._elementwise_lookups, c18._index_values)
+    except Exception as e:                  # (the sibling module is being edited / not importable: no verdict rather than a crash)
+        chk.ob(R, key, None, fi.where(), "interpolation term machinery of checks.C18 not available: %s" % str(e)[:80])
+        return
+    SymEval_, search_in_part, elementwise_lookups, index_values = tools
+    pos = [p for p in fi.params if not p.startswith("*")]
+    if len(pos) != 3:
+        chk.ob(R, key, None, fi.where(), "%s does not take (values, abscissae, query points)" % fi.qualname)
+        return
+    v, x, u = symx.symbols("v", "x", "u")
+    what = "x(u) = (u - p_k)(x_{k+1} - x_k)/(p_{k+1} - p_k) + x_k with k = max(searchsorted(p, u) - 1, 0) for every u up to the last cumulative value"
+    try:
+        r = SymEval_(repo, opaque_tests=False).run(fi, dict(zip(pos, (v, x, u))), {})
+    except Exception as e:
+        r = "%s: %s" % (type(e).__name__, str(e)[:120])
+    if not isinstance(r, sp.Basic):
+        chk.ob(R, key, None, fi.where(), what + " (the value %s returns was not reduced to a term: %r)" % (fi.name(), r))
+        return
+    try:
+        r = elementwise_lookups(search_in_part(r, x), x, u, (x, v))
+    except Exception as e:
+        chk.ob(R, key, None, fi.where(), what + " (term not normalised: %s)" % str(e)[:120])
+        return
+    AT = sp.Function("AT")
+    K = sp.Symbol("K", integer=True)
+    ref = (u - AT(x, K)) * (AT(v, K + 1) - AT(v, K)) / (AT(x, K + 1) - AT(x, K)) + AT(v, K)
+    roles, wrong, unread = {}, [], []
+    for e in sorted({t.args[1] for t in r.atoms(AT) if len(t.args) == 2}, key=str):
+        role, text = _segment_role(e, x, u, index_values)
+        if role == "other":
+            wrong.append(text)
+        elif role is None:
+            unread.append(e)
+        else:
+            roles[e] = K if role == "k" else K + 1
+    if wrong:
+        chk.ob(R, key, False, fi.where(), what + ": " + "; ".join(wrong[:2]))
+        return
+    rk = r.xreplace(roles)
+    try:
+        eq = bool(symx.equal(rk, ref)[0])
+    except Exception:
+        eq = False
+    foreign = sorted({type(t).__name__ for t in r.atoms(sp.core.function.AppliedUndef)} - {"AT", "SEARCHSORTED", "SIZE", "CLIP"}) + \
+        sorted(str(s_) for s_ in r.free_symbols - {v, x, u})
+    ok = True if eq else (None if (unread or foreign or not roles) else False)
+    chk.ob(R, key, ok, fi.where(), what + ("" if eq else " (found %s)%s" % (str(r)[:240], " [not interpreted: %s]" % ", ".join(map(str, foreign + unread))[:120] if (foreign or unread) else "")))
 
 
 def _constructor_paths(repo, fi, given, method="accum", cumulative=False):
@@ -2953,6 +3074,195 @@ def cholesky(chk, repo):
             chk.ob(R, keys[4], (ch == [CHOL(cov_s)] or set(ch) == {CHOL(cov_s)}) if ch else None, w, "M = cholesky(cov) (%s)" % [str(x) for x in ch])
     cs = repo.func(RA + "cholesky_sample")
     chk.ob(R, cs.qualname + "::mean-length-checked", _length_guard(repo, cs, "means", "cov"), cs.where(), "a mean vector of the wrong length is rejected")
+
+
+# ---- no value is carried from one call of a sampler function to the next -----------------------------------------------------
+MUTATORS = {"append", "extend", "insert", "update", "setdefault", "clear", "pop", "popitem", "add", "remove", "discard", "__setitem__", "fill", "put",
+            "sort", "reverse", "resize", "itemset", "appendleft", "move_to_end"}
+MUTABLE_MAKERS = {"list", "dict", "set", "OrderedDict", "defaultdict", "deque", "WeakValueDictionary", "WeakKeyDictionary", "zeros", "empty", "ones", "array"}
+STATE_FUNCS = (("R19.chol", RA + "cholesky_sample"), ("R19.cap", CO + "randcap"), ("R19.box", CO + "randsphere"), ("R19.ind", RA + "random_indices"))
+
+
+def _root_name(e):
+    while isinstance(e, (ast.Subscript, ast.Attribute, ast.Starred)):
+        e = e.value
+    return e.id if isinstance(e, ast.Name) else None
+
+
+def _store_targets(st):
+    """the expressions a statement (or a walrus) binds / overwrites"""
+    if isinstance(st, ast.Assign):
+        tg = list(st.targets)
+    elif isinstance(st, (ast.AugAssign, ast.AnnAssign, ast.NamedExpr, ast.For, ast.AsyncFor)):
+        tg = [st.target]
+    elif isinstance(st, ast.Delete):
+        tg = list(st.targets)
+    elif isinstance(st, (ast.With, ast.AsyncWith)):
+        tg = [i.optional_vars for i in st.items if i.optional_vars is not None]
+    else:
+        return []
+    out = []
+    while tg:
+        t = tg.pop()
+        if isinstance(t, (ast.Tuple, ast.List)):
+            tg.extend(t.elts)
+        else:
+            out.append(t)
+    return out
+
+
+def _own_exprs(st):
+    """the expressions a statement evaluates itself (not those of the statements nested in it)"""
+    if isinstance(st, ast.stmt):
+        return [v for f, v in ast.iter_fields(st) if isinstance(v, ast.expr)] + \
+               [x for f, v in ast.iter_fields(st) if isinstance(v, list) for x in v if isinstance(x, ast.expr)] + \
+               [i.context_expr for i in getattr(st, "items", []) if isinstance(i, ast.withitem)]
+    return []
+
+
+def _loads(e, names):
+    return [x for x in ast.walk(e) if isinstance(x, ast.Name) and isinstance(x.ctx, ast.Load) and x.id in names]
+
+
+def carried_state(fi):
+    """does the value a plain function returns depend on something an earlier call of it left behind?
+
+    Objects that outlive a call: module-level names (declared `global`, or module-level containers the function stores into /
+    mutates), parameters whose default is a mutable object, attributes of the function object.  The function carries state when
+    it writes such an object AND what it returns depends on a read of it, by data flow through the locals or by control (a
+    branch on such a read decides what is bound / returned).  Returns (verdict, node, text):
+      True   nothing written by the function outlives the call, or what outlives it never reaches the result
+      False  the result depends on carried state and no read of it is keyed on the VALUES of this call's arguments (the
+             arguments take part by object identity -- `is`, id() -- or not at all): the same array object with other contents,
+             or simply a second call, is answered with what was computed for the first
+      None   the carried state is looked up by something computed from the arguments' contents: whether that key determines the
+             result is not decided here"""
+    node, mod = fi.node, fi.module
+    a = node.args
+    params = {x.arg for x in a.posonlyargs + a.args + a.kwonlyargs} | {x.arg for x in (a.vararg, a.kwarg) if x is not None}
+    glob = {n for x in walk_no_nested(node) if isinstance(x, (ast.Global, ast.Nonlocal)) for n in x.names}
+    stmts = [x for x in walk_no_nested(node) if isinstance(x, (ast.stmt, ast.NamedExpr)) and x is not node]
+    bound = {t.id for st in stmts for t in _store_targets(st) if isinstance(t, ast.Name)}
+    bound |= {al.asname or al.name.split(".")[0] for st in stmts if isinstance(st, (ast.Import, ast.ImportFrom)) for al in st.names}
+    comp = {t.id for x in walk_no_nested(node) if isinstance(x, ast.comprehension) for t in ast.walk(x.target) if isinstance(t, ast.Name)}
+    local = (params | bound | comp) - glob
+    modlevel = set(mod.consts)
+    for st in walk_no_nested(mod.tree):
+        for t in _store_targets(st):
+            if isinstance(t, ast.Name):
+                modlevel.add(t.id)
+    mutable_default = set()
+    pos = a.posonlyargs + a.args
+    for p, d in list(zip(pos[len(pos) - len(a.defaults):], a.defaults)) + [(p, d) for p, d in zip(a.kwonlyargs, a.kw_defaults) if d is not None]:
+        if isinstance(d, (ast.List, ast.Dict, ast.Set, ast.ListComp, ast.DictComp, ast.SetComp)) or (isinstance(d, ast.Call) and call_name(d) in MUTABLE_MAKERS):
+            mutable_default.add(p.arg)
+
+    def outlives(r):
+        if r is None:
+            return False
+        if r in glob or r in mutable_default:
+            return True
+        if r in local:
+            return False
+        return r in modlevel or r == node.name
+
+    written = {}
+    for st in stmts:
+        for t in _store_targets(st):
+            if isinstance(t, ast.Name):
+                if t.id in glob:
+                    written.setdefault(t.id, st)
+            elif outlives(_root_name(t)) and _root_name(t) not in mod.imports:
+                written.setdefault(_root_name(t), st)
+    for x in walk_no_nested(node):
+        if isinstance(x, ast.Call) and isinstance(x.func, ast.Attribute) and x.func.attr in MUTATORS:
+            r = _root_name(x.func.value)
+            if outlives(r) and r not in mod.imports:
+                written.setdefault(r, x)
+    if not written:
+        return True, None, "nothing the function writes outlives the call"
+    # what depends on a read of the written objects: data flow through bindings, control through the tests that guard them
+    tainted = set(written)
+    guarded_returns = []
+    changed = True
+    while changed:
+        changed = False
+        guarded_returns = []
+        for st in stmts:
+            new = set()
+            if isinstance(st, (ast.If, ast.While)) and _loads(st.test, tainted):
+                for x in walk_no_nested(st):
+                    new |= {_root_name(t) for t in _store_targets(x)} - {None}
+                    if isinstance(x, ast.Return):
+                        guarded_returns.append(x)
+            elif isinstance(st, (ast.Try,)):
+                pass
+            elif any(_loads(e, tainted) for e in _own_exprs(st)) and not isinstance(st, (ast.If, ast.While)):
+                new |= {_root_name(t) for t in _store_targets(st)} - {None}
+            new = {n for n in new if n in local} - tainted
+            if new:
+                tainted |= new
+                changed = True
+    rets = [x for x in walk_no_nested(node) if isinstance(x, ast.Return)]
+    hit = [r for r in rets if (r.value is not None and _loads(r.value, tainted)) or r in guarded_returns]
+    # a function that stops at a guarded return also decides, by not returning there, what the later returns stand for
+    if not hit and guarded_returns:
+        hit = guarded_returns
+    if not hit:
+        return True, None, "%s outlive(s) the call but never reach(es) the result" % ", ".join("`%s`" % k for k in sorted(written))
+    # how the reads of the carried objects are keyed on this call's arguments
+    derived = set(params) - set(written)
+    changed = True
+    while changed:
+        changed = False
+        for st in stmts:
+            if isinstance(st, (ast.If, ast.While)):
+                continue
+            if any(_loads(e, derived) for e in _own_exprs(st)):
+                new = {_root_name(t) for t in _store_targets(st)} - {None} - derived - set(written)
+                new = {n for n in new if n in local and n not in tainted}
+                if new:
+                    derived |= new
+                    changed = True
+    # the look-ups: tests that read a carried object, the index of an element read of one, the arguments of get/setdefault/pop on one
+    reads = []
+    for x in walk_no_nested(node):
+        if isinstance(x, (ast.If, ast.While, ast.IfExp, ast.Assert)) and _loads(x.test, set(written)):
+            reads.append(x.test)
+        elif isinstance(x, ast.comprehension):
+            reads += [c for c in x.ifs if _loads(c, set(written))]
+        elif isinstance(x, ast.Subscript) and isinstance(x.ctx, ast.Load) and _root_name(x.value) in written:
+            reads.append(x.slice)
+        elif isinstance(x, ast.Call) and isinstance(x.func, ast.Attribute) and x.func.attr in ("get", "setdefault", "pop", "__getitem__", "__contains__") \
+                and _root_name(x.func.value) in written:
+            reads.append(x)
+    by_value, by_identity = [], []
+    for e in reads:
+        ident = set()
+        for x in ast.walk(e):
+            if isinstance(x, ast.Compare) and all(isinstance(o, (ast.Is, ast.IsNot)) for o in x.ops):
+                ident |= {id(o) for o in [x.left] + x.comparators if isinstance(o, ast.Name)}
+            if isinstance(x, ast.Call) and call_name(x) == "id" and len(x.args) == 1 and isinstance(x.args[0], ast.Name):
+                ident.add(id(x.args[0]))
+        for nm in _loads(e, derived):
+            (by_identity if id(nm) in ident else by_value).append((nm, e))
+    first = reads[0] if reads else written[sorted(written)[0]]
+    names = ", ".join("`%s`" % k for k in sorted(written))
+    if by_value:
+        return None, by_value[0][1], "what is returned depends on %s, kept from earlier calls and looked up through `%s`: whether that key determines the result is not decided" % (names, norm(by_value[0][1])[:80])
+    how = ("the arguments take part only by object identity (`%s`)" % norm(by_identity[0][1])[:80]) if by_identity else "no read of it looks at this call's arguments"
+    return False, first, "what is returned depends on %s, which an earlier call left behind, and %s: a call with the same array object holding other values (or simply a later call) " \
+                         "is answered from what was computed before" % (names, how)
+
+
+def no_carried_state(chk, repo):
+    for rule, q in STATE_FUNCS:
+        if not repo.has(q):
+            continue
+        fi = repo.func(q)
+        ok, at, text = carried_state(fi)
+        chk.ob(rule, q + "::nothing-carried-between-calls", ok, fi.where(at) if at is not None else fi.where(),
+               "the result is a function of this call's arguments and the deviates drawn in it: %s" % text)
 
 
 def _must_hold(test, label):
